@@ -11,6 +11,7 @@ mod spectator;
 mod synctest;
 mod timesync;
 mod util;
+mod wait;
 
 #[global_allocator]
 static GLOBAL: alloc::Counting = alloc::Counting;
@@ -29,6 +30,7 @@ fn main() {
         "spectator" => spectator::run(),
         "synctest" => synctest::run(),
         "timesync" => timesync::run(),
+        "wait" => wait::run(),
         "profile" => println!("{}", if cfg!(debug_assertions) { "debug" } else { "release" }),
         _ => {
             eprintln!("usage: vharness <codec|...>");
